@@ -49,13 +49,28 @@ def gen_cases(chk):
                     else:
                         pre = B.lddw(6, 0) + B.alu('add', 6, imm=d)     # lddw patched with the region's address below
                     out.append((Case(pre + body, mem=mem, mbuff=mbuff, fam='%s:%s:%s' % (name, sz, reg)), reg, d, n))
-            # offsets carried by the instruction instead of the register
+            # offsets carried by the instruction instead of the register, for every access kind: the check must be made at
+            # base + offset (once), also when base alone / base + 2*offset would be inside or outside
             for reg in (['mem'] if mem else []) + (['mbuff'] if mbuff else []):
                 ln = len(mem) if reg == 'mem' else len(mbuff)
-                for off in (-32768, -1, 1, ln - n, ln - n + 1, 32767):
-                    body = B.ldx(sz, 0, 6, off) + B.EXIT
-                    out.append((Case(B.lddw(6, 0) + B.alu('add', 6, imm=-off if off in (-32768, 32767) else 0) + body, mem=mem, mbuff=mbuff,
-                                     fam='ldx-off:%s:%s' % (sz, reg)), reg, (-off if off in (-32768, 32767) else 0, off), n))
+                for off in (-32768, -16, -8, -1, 1, 8, 12, 16, ln - n, ln - n + 1, 32767):
+                    for shift in (0, -off):              # register = region start, or such that the effective address is the region start
+                        if abs(shift) > 2 ** 31 - 1:
+                            continue
+                        bodies = [('ldx', B.ldx(sz, 0, 6, off) + B.EXIT),
+                                  ('st', B.st(sz, 6, off, 0x5a5a5a5a) + B.mov(0, 0) + B.EXIT),
+                                  ('stx', B.load_const(3, 0x1122334455667788) + B.stx(sz, 6, 3, off) + B.mov(0, 0) + B.EXIT)]
+                        if sz in ('w', 'dw'):
+                            bodies.append(('xadd', B.load_const(3, 0x0101010101010101) + B.xadd(sz, 6, 3, off) + B.mov(0, 0) + B.EXIT))
+                        for name, body in bodies:
+                            out.append((Case(B.lddw(6, 0) + B.alu('add', 6, imm=shift) + body, mem=mem, mbuff=mbuff,
+                                             fam='%s-off:%s:%s' % (name, sz, reg)), reg, (shift, off), n))
+            for off in (-512, -264, -256, -8, -n):
+                bodies = [('st', B.st(sz, 10, off, 0x5a5a5a5a) + B.mov(0, 0) + B.EXIT)]
+                if sz in ('w', 'dw'):
+                    bodies.append(('xadd', B.load_const(3, 0x0101010101010101) + B.xadd(sz, 10, 3, off) + B.mov(0, 0) + B.EXIT))
+                for name, body in bodies:
+                    out.append((Case(body, mem=mem, mbuff=mbuff, fam='%s-off:%s:stack' % (name, sz)), 'stack', off, n))
         for sz in ('b', 'h', 'w', 'dw'):
             for d in list(range(0, 10)) + [len(mem) + x for x in range(-9, 3)] + [0x7fffffff, -1]:
                 out.append((Case(B.ldabs(sz, d) + B.EXIT, mem=mem, mbuff=mbuff, fam='ldabs:' + sz), None, None, B.SIZE_BYTES[sz]))
